@@ -169,6 +169,52 @@ def gen_cases(rnd, n, ctx, max_depth):
     return cases[:n]
 
 
+def lattice_cases():
+    """Deterministic boundary lattice of every scalar / size / uniqueness / positional guard that the
+    generated layer (Gen/Guards.v) translates: each bound with the values bound-1, bound, bound+1 (and
+    the sign boundaries around 0), so that an edited comparison is met by a concrete input whatever the seed."""
+    out = []
+    I = lambda z: ("int", z)
+    F = lambda x: ("flt",) + E.float_me(x)
+    num = lambda k, s="Any", mult=None, mn=None, mx=None, xmax=False: {
+        "t": "num", "k": k, "s": s, "mult": mult, "min": mn, "max": mx, "xmax": xmax}
+    for k in ("Number", "Integer", "Float"):
+        vals = [I(z) for z in (-6, -5, -4, -1, 0, 1, 4, 5, 6, 10, 12)]
+        if k != "Integer":
+            vals += [F(x) for x in (-5.5, -5.0, -0.5, 0.0, 0.5, 4.5, 5.0, 5.5)]
+        for f in (num(k, mn=I(5)), num(k, mx=I(5)), num(k, mx=I(5), xmax=True), num(k, mn=I(-5), mx=I(5)),
+                  num(k, mult=5), num(k, mult=-5), num(k, mn=F(4.5)), num(k, mx=F(4.5), xmax=True)):
+            out += [(f, v) for v in vals]
+        for sgn in ("Positive", "Negative", "NonPositive", "NonNegative"):
+            out += [(num(k, sgn), v) for v in vals]
+            out += [(num(k, sgn, mn=I(-5), mx=I(5)), v) for v in vals]
+    strs = [("str", x) for x in ("", "a", "ab", "abc", "abcd", "abcde")]
+    for f in ({"t": "str", "min": 3, "max": None, "pat": None}, {"t": "str", "min": None, "max": 3, "pat": None},
+              {"t": "str", "min": 2, "max": 4, "pat": None}, {"t": "str", "min": None, "max": None, "pat": 0}):
+        out += [(f, v) for v in strs + [I(3), ("none",)]]
+    out += [({"t": "bool"}, v) for v in (("bool", True), ("str", "True"), ("str", "False"), ("str", "true"), I(1), I(0),
+                                         F(1.0), ("none",), ("list", []))]
+    item = num("Integer")
+    lists = [("list", [I(i) for i in range(n)]) for n in range(0, 6)] + [("list", [I(1), I(1)]), ("list", [I(1), F(1.0)])]
+    deqs = [("deque", x[1]) for x in lists]
+    for kind, vals in (("list", lists), ("deque", deqs)):
+        for sz in ([2, None], [None, 3], [2, 4]):
+            for uniq in (False, True):
+                out += [({"t": "seqany", "k": kind, "sz": sz, "uniq": uniq}, v) for v in vals]
+                out += [({"t": "seqeach", "k": kind, "item": item, "sz": sz, "uniq": uniq}, v) for v in vals]
+        for additional in (None, True, False):
+            out += [({"t": "seqpos", "k": kind, "items": [item, item, item], "sz": [None, None], "uniq": False,
+                      "additional": additional}, v) for v in vals]
+    tups = [("tuple", x[1]) for x in lists]
+    out += [({"t": "tuple", "items": [item, item, item], "uniq": False}, v) for v in tups]
+    out += [({"t": "tuple", "items": [item], "uniq": True}, v) for v in tups]
+    sets = [("set", False, [I(i) for i in range(n)]) for n in range(0, 6)]
+    for sz in ([2, None], [None, 3]):
+        out += [({"t": "set", "imm": False, "item": item, "sz": sz}, v) for v in sets]
+        out += [({"t": "mapany", "sz": sz}, ("dict", [(("str", "k%d" % i), I(i)) for i in range(n)])) for n in range(0, 6)]
+    return out
+
+
 def run(rep, tier, pid="C02", prop_file="C02"):
     rnd = random.Random(core.seed() * 1000003 + 2)
     n = 2400 if tier == "quick" else 30000
@@ -176,7 +222,9 @@ def run(rep, tier, pid="C02", prop_file="C02"):
     proofs_ok, model_ok = core.standard_proof_obligations(
         rep, prop_file, ["theories/Check/Fieldchk.vo"])
     ctx = S.Context()
-    cases = [(c["field"], c["value"]) for c in core_corpus(pid)] + gen_cases(rnd, n, ctx, max_depth)
+    lat = lattice_cases()
+    rep.cov["streams"]["lattice"] = {"evaluations": len(lat)}
+    cases = [(c["field"], c["value"]) for c in core_corpus(pid)] + lat + gen_cases(rnd, n, ctx, max_depth)
     observed = run_cases(cases, ctx)
     keep = [i for i, o in enumerate(observed) if o[0] in ("ok", "raise")]
     dropped = len(cases) - len(keep)
